@@ -10,7 +10,9 @@ const ASSUME_SC: &str = "only sequentially consistent interleavings at the granu
 const ASSUME_HOOKS: &str = "circ is built with --cfg circ_verif (yield points, events, read-only shims) and without debug assertions";
 
 fn t60(_: Tier) -> u32 {
-    60
+    // cases of these checks take milliseconds; 30 s (then 90 s on the retry) only ever expires on a
+    // genuine hang, which is reported as inconclusive (exit 2), never as a violation
+    30
 }
 fn s16(_: Tier) -> usize {
     16
